@@ -124,8 +124,12 @@ func runC14(ctx *core.Ctx, pool *par.Pool) {
 		alphabet []O
 		sweep    bool // allocation sweep in every quiescent state reached through a size change
 	}
-	base := func(c pagedrv.Cfg, sd seed, d int) c14run { return c14run{bfsRun{c, sd, d}, resizeAlphabet(quick), false} }
-	ovf := func(c pagedrv.Cfg, sd seed, d int) c14run { return c14run{bfsRun{c, sd, d}, overflowResizeAlphabet(c), true} }
+	base := func(c pagedrv.Cfg, sd seed, d int) c14run {
+		return c14run{bfsRun{c, sd, d}, resizeAlphabet(quick), false}
+	}
+	ovf := func(c pagedrv.Cfg, sd seed, d int) c14run {
+		return c14run{bfsRun{c, sd, d}, overflowResizeAlphabet(c), true}
+	}
 	var runs []c14run
 	if quick {
 		runs = []c14run{
